@@ -4,8 +4,6 @@ import (
 	"fmt"
 	"os"
 	"strings"
-
-	"github.com/jmeaster30/vore/libvore/algo"
 )
 
 type PathEntryType int
@@ -57,31 +55,31 @@ func pathMatches(target string, matches string) bool {
 		return target == matches
 	}
 
-	matchParts := algo.Window(algo.SplitKeep(matches, "*"), 2)
-
-	result := true
-	for _, part := range matchParts {
-		if len(part) == 1 {
-			if part[0] != "*" && target != part[0] {
-				result = false
-			}
-			break
-		} else if part[0] == "*" {
-			splitStart := strings.Index(target, part[1])
-			if splitStart == -1 {
-				target = ""
-			} else {
-				target = target[splitStart:]
-			}
-		} else if strings.HasPrefix(target, part[0]) {
-			target = strings.TrimPrefix(target, part[0])
-			// FIXME doesn't account for relative folders ie `./docs/examples`
+	// every '*' stands for any run of characters: on a mismatch go back to the most recent star
+	// and let it take one more character (looking only for the first occurrence of the text
+	// after a star rejected "a.txt.txt" for "*.txt")
+	t, m := 0, 0
+	starIndex, starTarget := -1, 0
+	for t < len(target) {
+		if m < len(matches) && matches[m] == '*' {
+			starIndex = m
+			starTarget = t
+			m++
+		} else if m < len(matches) && matches[m] == target[t] {
+			t++
+			m++
+		} else if starIndex != -1 {
+			starTarget++
+			t = starTarget
+			m = starIndex + 1
 		} else {
-			result = false
-			break
+			return false
 		}
 	}
-	return result
+	for m < len(matches) && matches[m] == '*' {
+		m++
+	}
+	return m == len(matches)
 }
 
 func directoryExists(entries []os.DirEntry, name string) bool {
